@@ -58,6 +58,7 @@ type Case struct {
 	src  string
 	reps []Rep
 	held any // a hand-built value that IS the representation repHeld of t (stream structs_unexported)
+	hidx int // its index in structCases() (for the replay record)
 }
 
 // repHeld: the representation tag under which Case.held is run (typed slices, structs)
@@ -444,6 +445,9 @@ func (w *worker) run(c Case) error {
 
 func replayOf(c *Case, extra map[string]any) map[string]any {
 	r := map[string]any{"case": encodeCase(c.p, c.t), "path": c.p.String(), "data": c.t.canon(), "stream": c.src}
+	if c.held != nil {
+		r["held_index"], r["held_type"] = c.hidx, fmt.Sprintf("%T", c.held)
+	}
 	for k, v := range extra {
 		r[k] = v
 	}
@@ -898,6 +902,13 @@ func (w *worker) runC11(c *Case, pw, dw string) error {
 	}
 	var runs []runT
 	var qs []query
+	var firstTyped Rep
+	for _, r := range c.reps {
+		if _, ok := c.t.build(r); r.typed() && (ok || c.held != nil) {
+			firstTyped = r
+			break
+		}
+	}
 	for _, r := range c.reps {
 		data, ok := c.t.build(r)
 		if c.held != nil && r == repHeld {
@@ -946,13 +957,15 @@ func (w *worker) runC11(c *Case, pw, dw string) error {
 			runs = append(runs, runT{ev, r, o, ord, false, false})
 			qs = append(qs, query{mop, r.String(), pinnedFlags})
 			rep.Count("runs."+ev+"."+r.String(), 1)
-			if machineOps[ev] {
-				// the same outcome of the implementation against the evaluator's own machine model
+			if machineOps[ev] && (!r.typed() || r == firstTyped) {
+				// the same outcome of the implementation against the evaluator's own machine model (the traversal does
+				// not depend on the representation tag, the per-representation selections are tied by the skeleton op
+				// above: plain, gen, Indexed/Keyed and ONE typed representation per case)
 				runs = append(runs, runT{ev, r, o, ord, true, false})
 				qs = append(qs, query{ev + "m", r.String(), pinnedFlags})
 				rep.Count("runs."+ev+"m."+r.String(), 1)
 			}
-			if ev == "locate" && ord && !r.typed() {
+			if ev == "locate" && ord && (r == repSimple || r == repUser) {
 				// Locate with a budget (max = 1..3) against the recursive model: the order of the returned slice
 				// matters, so only where it is defined (no iteration over a wide map, no struct fields)
 				k := 1 + (len(pw)+len(dw)+len(runs))%3
@@ -986,7 +999,7 @@ func (w *worker) runC11(c *Case, pw, dw string) error {
 				rep.Count("skipped.locatemax_fault", 1)
 				continue
 			}
-			if !tie && !c.p.hasHuge() {
+			if !tie && !c.p.hasHuge() && !(c.held != nil && ru.r == repHeld && filterOnPointer(c)) {
 				finding("disagreement", "machine-"+ru.ev+":"+ru.r.String(), "the evaluator and its machine model ("+qs[i].op+") differ", c, desc)
 			}
 			continue
@@ -1019,6 +1032,7 @@ func (w *worker) runC11(c *Case, pw, dw string) error {
 			}
 		}
 		if (!tie || !ok) && c.held != nil && ru.r == repHeld && ru.o.panic == "" && ru.o.bad == "" && filterOnPointer(c) {
+			// (finding C11-filter-pointer, repaired 46bed20; the entry is in `fixed`, so a recurrence is a plain violation)
 			// a filter applied to a POINTER to a struct, slice or map selects nothing (script.go evalWithRoot and
 			// filter.go Filter.Walk switch on rv.Kind() without following the pointer; the wildcard does follow it):
 			// results are lost, nothing else is reported
@@ -1072,7 +1086,7 @@ func (w *worker) runC11(c *Case, pw, dw string) error {
 // plain `[]any` or `map[string]any` — under a leading descent: `$..<path>` on `[]any{T}` and
 // `map[string]any{"k": T}`. No model is involved: the oracle is the property's own comparison, FirstFound and
 // Has against Get on the all-plain data (Get on typed data is Get on plain data: C11_repr_current).
-// Known finding C11-mixed-descent-marker: in the first pass of a descent FirstFound and Has push a typed member
+// Finding C11-mixed-descent-marker (repaired 172dffb; the entry is in `fixed`, so a recurrence is a plain violation): in the first pass of a descent FirstFound and Has push a typed member
 // of a plain container without its own `fi|descentChildFlag` marker (Get pushes one), so the member is handed
 // to the rest of the path but never descended into. What the defective code computes is reproduced from Get:
 // the rest of the path on T itself and on the wrapper; an outcome is attributed to the finding only if it is
@@ -1370,7 +1384,14 @@ func runReplay() {
 		}
 		return
 	}
-	if err := w.run(Case{p: p, t: t, src: "replay", reps: append([]Rep{repSimple, repGen, repUser}, repTyped...)}); err != nil {
+	rc := Case{p: p, t: t, src: "replay", reps: append([]Rep{repSimple, repGen, repUser}, repTyped...)}
+	if hi, ok := r.Replay["held_index"].(float64); ok {
+		// a hand-built struct value (stream structs_unexported)
+		if vals, trees := structCases(); int(hi) < len(vals) {
+			rc = Case{p: p, t: trees[int(hi)], src: "structs_unexported", reps: []Rep{repSimple, repHeld}, held: vals[int(hi)], hidx: int(hi)}
+		}
+	}
+	if err := w.run(rc); err != nil {
 		fmt.Fprintln(os.Stderr, err)
 		os.Exit(3)
 	}
